@@ -24,6 +24,7 @@ def disciplined (f : FnShape) (a : Access) : Bool :=
     | .call => if mutatingCall a.target then a.mode == .W else a.mode != .N
     | .self => if isExported a.target then a.mode == .N else a.mode == .W
     | .spawn => false
+    | .send => false
   else
     match a.kind with
     | .self => !(isExported a.target) && a.mode == .N
